@@ -23,6 +23,7 @@ type ConnFaults struct {
 	Reset       bool  `json:"reset,omitempty"`
 	WriteFailAt int64 `json:"writeFailAt,omitempty"` // client Write returns an error when reaching this offset (short write)
 	WriteFail   bool  `json:"writeFail,omitempty"`
+	WriteFailNth int  `json:"writeFailNth,omitempty"` // the n-th Write call of the client (1-based) fails without accepting anything
 	// server→client direction
 	S2CStallAt int64 `json:"s2cStallAt,omitempty"` // bytes at offset >= this never arrive
 	S2CStall   bool  `json:"s2cStall,omitempty"`
@@ -203,6 +204,7 @@ type Pipe struct {
 	f      ConnFaults
 	// fault counters (fired, not configured)
 	ResetFired, WriteFailFired bool
+	clientWrites               int
 }
 
 // End is one endpoint; it implements net.Conn.
@@ -512,6 +514,14 @@ func (e *End) write(p []byte) (n int, err error, again bool) {
 		take = space
 	}
 	f := &e.p.f
+	if e.isClient && f.WriteFailNth > 0 {
+		e.p.clientWrites++
+		if e.p.clientWrites == f.WriteFailNth {
+			e.p.WriteFailFired = true
+			k.Note(uint64(e.p.ID)<<2|1, 1<<43)
+			return 0, opErr("write", syscall.EPIPE), false
+		}
+	}
 	if e.isClient {
 		if f.Reset && e.tx.w+take > f.ResetAt {
 			take = f.ResetAt - e.tx.w
